@@ -11,9 +11,11 @@ from .report import jhash
 
 EXPRS = ["r.f == 'x'", "'x' in r.f", "r.n >= 0 and r.f == 'x'", "r.f == 'x' or r.n == 3", "Type.string == 'x'", "field_equals(r, ['f'], ['x'])",
          "field_contains(r, ['f', 'g'], ['x'])", "has_field(r, 'f')", "lower(r.f) == 'x'", "r.f != 'y'", "not r.f == 'x'", "any(c == 'x' for c in r.f)",
-         "r.g == 'x' or r.f == 'x'", "r.f in ['x', 'y']", "r.f < 'y'"]
+         "r.g == 'x' or r.f == 'x'", "r.f in ['x', 'y']", "r.f < 'y'",
+         "r.link.filename == 'a.txt'", "r.f == 'x' and r.link.netloc == 'h.example'", "Type.uri.filename == 'a.txt'"]
 
 _POOL = {}
+_TWINS = {}
 
 
 def records(T):
@@ -21,12 +23,17 @@ def records(T):
         out = []
         for i in range(T):
             for has in (False, True):
-                fields = [["varint", "n"], ["varint", "u%d" % i]] + ([["string", "f"]] if has else [])
-                spec = rs("md/t%d%s" % (i, "f" if has else ""), fields, [str(i % 5), "1"] + (["'x'" if i % 3 else "'q'"] if has else []))
+                # (types that have f also have a uri field that is unset in every third of them: an attribute read on an unset value)
+                fields = [["varint", "n"], ["varint", "u%d" % i]] + ([["string", "f"], ["uri", "link"]] if has else [])
+                spec = rs("md/t%d%s" % (i, "f" if has else ""), fields, [str(i % 5), "1"] + (["'x'" if i % 3 else "'q'", "None" if i % 3 == 0 else "'http://h.example/d/a.txt'"] if has else []))
                 if i % 4 == 3:
                     # every fourth one inside a grouped record: ONE Python class and ONE group name for all of them, another make-up each
                     spec = {"group": "md/g", "members": [rs("md/mate", [["string", "m"]], ["'mate'"]), spec]}
                 out.append(recs.build_record(spec))
+                if has and i % 4 != 3 and i < 90:
+                    # a second record of the very same type whose uri field is set where the first one's is unset (and the other way round)
+                    tw = rs("md/t%df" % i, fields, [str(i % 5), "1", "'x'", "'http://h.example/d/a.txt'" if i % 3 == 0 else "None"])
+                    _TWINS.setdefault(T, []).append(recs.build_record(tw))
         _POOL[T] = out
     return _POOL[T]
 
@@ -49,6 +56,7 @@ def run(case, prop):
     seq = [pool[2 * i + has(i)] for i in range(T)]
     # then the other variant of every type (same name prefix, other field list), newest first
     seq += [pool[2 * i + 1 - has(i)] for i in range(T - 1, -1, -1)][: min(T, 200)]
+    seq += _TWINS.get(T, [])
     viol = []
     outs = []
     for engine, cls in (("interpreted", Selector), ("compiled", CompiledSelector)):
